@@ -29,9 +29,10 @@ RULE = ("one run = a history of 8-40 operations (proposal by a new/existing acto
 QUICK_RUNS = 8000
 THOROUGH_RUNS = 500_000
 EXPECT_PROBES = ["replacement", "expiry", "bounds_change", "same_priority_actors", "exclusion_bigger_than_inclusion",
-                 "actor_variant", "expiry_via_timer"]
+                 "actor_variant", "expiry_via_timer", "two_component_groups", "identical_resend"]
 
 IDS = frozenset({8, 18})
+IDS2 = frozenset({28, 38})
 
 
 def _mk_actors(ch: Any, n: int) -> list[dict[str, Any]]:
@@ -52,26 +53,33 @@ def scenario_object(sim: Sim) -> None:
     if len({a["prio"] for a in actors}) < len(actors):
         sim.probe("same_priority_actors")
     m = Matryoshka(max_proposal_age=timedelta(seconds=pm.MAX_AGE_S))
-    sb = pm.gen_sysbounds(ch, allow_none=False)
+    ngroups = 1 + ch.weighted("ngroups", [2, 1])
+    groups = [IDS, IDS2][:ngroups]
+    if ngroups > 1:
+        sim.probe("two_component_groups")
+    sbs = [pm.gen_sysbounds(ch, allow_none=False) for _ in groups]
     now = 100.0
-    live: dict[tuple[int, str], dict[str, Any]] = {}
+    lives: list[dict[tuple[int, str], dict[str, Any]]] = [{} for _ in groups]
+    ever = [False] * ngroups
     nops = ch.int_between("nops", 8, sim.scale(40, 90))
-    ever = False
     for step in range(nops):
+        g = ch.draw("group", ngroups)
+        ids, live, sb = groups[g], lives[g], sbs[g]
         op = ch.weighted("op", [6, 2, 1, 2, 2])
         if op == 0:
             a = actors[ch.draw("actor", len(actors))]
             p = pm.gen_proposal(ch, a, sb, list(live.values()), now)
             if ch.chance("resend_identical", 0.1) and (a["prio"], a["name"]) in live:
                 p = dict(live[(a["prio"], a["name"])], t=now)
+                sim.probe("identical_resend")
             if (a["prio"], a["name"]) in live:
                 sim.probe("replacement")
                 sim.nontrivial = True
             live[(a["prio"], a["name"])] = p
-            ever = True
-            sim.ev("propose", a["name"], p["pref"], p["lower"], p["upper"])
-            sim.note(f"propose {pm.pstr(p)} at t={now}")
-            m.calculate_target_power(IDS, pm.mk_proposal(p, IDS), pm.mk_sysbounds(sb, sim.wall()),
+            ever[g] = True
+            sim.ev("propose", a["name"], g, p["pref"], p["lower"], p["upper"])
+            sim.note(f"group {g}: propose {pm.pstr(p)} at t={now}")
+            m.calculate_target_power(ids, pm.mk_proposal(p, ids), pm.mk_sysbounds(sb, sim.wall()),
                                      must_return_power=bool(ch.draw("must", 2)))
         elif op == 1:
             dt = ch.choice("dt", [0.5, 1.0, 10.0, 29.0, 30.0, 59.0, 60.0, 60.5, 61.0, 125.0])
@@ -80,49 +88,57 @@ def scenario_object(sim: Sim) -> None:
             sim.note(f"advance {dt}s -> {now}")
         elif op == 2:
             m.drop_old_proposals(now)
-            gone = [k for k, p in live.items() if now - p["t"] > pm.MAX_AGE_S]
-            for k in gone:
-                del live[k]
-                sim.probe("expiry")
-                sim.nontrivial = True
-            sim.ev("drop_old", "", len(gone))
-            sim.note(f"drop_old_proposals({now}) -> {len(gone)} expired")
+            ngone = 0
+            for lv in lives:
+                for k in [k for k, p in lv.items() if now - p["t"] > pm.MAX_AGE_S]:
+                    del lv[k]
+                    ngone += 1
+                    sim.probe("expiry")
+                    sim.nontrivial = True
+            sim.ev("drop_old", "", ngone)
+            sim.note(f"drop_old_proposals({now}) -> {ngone} expired")
         elif op == 3:
-            sb = pm.gen_sysbounds(ch)
+            sb = sbs[g] = pm.gen_sysbounds(ch)
             if sb["lo"] is not None and (sb["xlo"] < sb["lo"] or sb["xhi"] > sb["hi"]):
                 sim.probe("exclusion_bigger_than_inclusion")
             sim.probe("bounds_change")
             sim.nontrivial = True
-            sim.ev("bounds", "", repr(sorted(sb.items())))
-            sim.note(f"bounds incl [{sb['lo']},{sb['hi']}] excl ({sb['xlo']},{sb['xhi']})")
-        # ---- observe + oracle after every operation (and as op 4: a plain calculate)
-        if not ever:
-            continue
-        sysb = pm.mk_sysbounds(sb, sim.wall())
-        got = pm.watts(m.calculate_target_power(IDS, None, sysb, must_return_power=True))
-        if got is None:
-            sim.violation("envelope", {"what": "no target although proposals exist"}, f"step {step}")
-        assert got is not None
-        sim.ev("target", "", got)
-        bad = pm.in_envelope(got, sb)
-        if bad:
-            sim.violation("envelope", {"what": bad.split(" W ")[1][:20] if " W " in bad else bad[:20]},
-                          f"step {step}: {bad}; live={[pm.pstr(p) for p in live.values()]}")
-        lv = sorted(live.values(), key=lambda p: (p["prio"], p["actor"]))
-        want = pm.fresh_target(lv, sb, IDS, sim.wall())
-        if lv and want != got:
-            sim.violation("history_free", {"order": "canonical"},
-                          f"step {step}: target {got} W, but a fresh instance fed only the live proposals "
-                          f"{[pm.pstr(p) for p in lv]} with bounds {sb} yields {want} W")
-        if len(lv) > 1:
-            order = ch.shuffle("fresh_order", list(range(len(lv))))
-            want2 = pm.fresh_target(lv, sb, IDS, sim.wall(), order)
-            if want2 != got:
-                sim.violation("history_free", {"order": "shuffled"},
-                              f"step {step}: target {got} W, fresh instance fed in order {order} yields {want2} W")
-        if m.get_target_power(IDS) is None or pm.watts(m.get_target_power(IDS)) != got:
-            sim.violation("history_free", {"order": "get_target_power"},
-                          f"get_target_power {m.get_target_power(IDS)} != last calculated {got}")
+            sim.ev("bounds", g, repr(sorted(sb.items())))
+            sim.note(f"group {g}: bounds incl [{sb['lo']},{sb['hi']}] excl ({sb['xlo']},{sb['xhi']})")
+        # ---- observe + oracle after every operation, for every group (expiry acts on all of them)
+        for gg in range(ngroups):
+            if ever[gg]:
+                _check_object(sim, m, groups[gg], lives[gg], sbs[gg], step, gg)
+
+
+def _check_object(sim: Sim, m: Any, ids: frozenset[int], live: dict[tuple[int, str], dict[str, Any]],
+                  sb: dict[str, Any], step: int, g: int) -> None:
+    ch = sim.ch
+    sysb = pm.mk_sysbounds(sb, sim.wall())
+    got = pm.watts(m.calculate_target_power(ids, None, sysb, must_return_power=True))
+    if got is None:
+        sim.violation("envelope", {"what": "no target although proposals exist"}, f"step {step} group {g}")
+    assert got is not None
+    sim.ev("target", g, got)
+    bad = pm.in_envelope(got, sb)
+    if bad:
+        sim.violation("envelope", {"what": bad.split(" W ")[1][:20] if " W " in bad else bad[:20]},
+                      f"step {step} group {g}: {bad}; live={[pm.pstr(p) for p in live.values()]}")
+    lv = sorted(live.values(), key=lambda p: (p["prio"], p["actor"]))
+    want = pm.fresh_target(lv, sb, ids, sim.wall()) if lv else 0.0
+    if want != got:
+        sim.violation("history_free", {"order": "canonical"},
+                      f"step {step} group {g}: target {got} W, but a fresh instance fed only the live proposals "
+                      f"{[pm.pstr(p) for p in lv]} with bounds {sb} yields {want} W")
+    if len(lv) > 1:
+        order = ch.shuffle("fresh_order", list(range(len(lv))))
+        want2 = pm.fresh_target(lv, sb, ids, sim.wall(), order)
+        if want2 != got:
+            sim.violation("history_free", {"order": "shuffled"},
+                          f"step {step} group {g}: target {got} W, fresh instance fed in order {order} yields {want2} W")
+    if m.get_target_power(ids) is None or pm.watts(m.get_target_power(ids)) != got:
+        sim.violation("history_free", {"order": "get_target_power"},
+                      f"get_target_power {m.get_target_power(ids)} != last calculated {got}")
 
 
 def scenario_actor(sim: Sim) -> None:
